@@ -779,7 +779,7 @@ def check_C03(ctx):
     cd = [gen.mkopt("bool", ch, **{"def": ["false"]}) for ch in "abc"] + [gen.mkopt("strings", "o"), gen.mkarg("strings", "X")]
     many = []
     for sp in ("(-a | -b | -c)...", "[-a | -b | -c | -o]... [X]", "(-a | -b)... (-c | -a)... [X]", "([-a] [-b] [-c])... X", "[-a | -b]... [-c | -o]... X..."):
-        for n in (14, 20, 30, 45):
+        for n in ((14, 20, 30, 45) if "-o" not in sp else (14, 20, 30, 36)):      # (four different options: 45 units need 4 s on an idle machine)
             for tail in (["-z"], [], ["x"], ["x", "-z"], ["--", "-a"]):
                 line = []
                 for k_ in range(n):
@@ -833,6 +833,12 @@ def check_C03(ctx):
                      "argv": ["x"], "_k4": k4})
     number(many, start=10 ** 6)
     mres = core.run_impl(many, timeout_ms=10000)
+    # a deadline measures the machine too: what did not answer in time is run once more, one case at a time, when nothing else
+    # of this check is running; only what misses the deadline twice counts (the known findings need minutes, a loaded machine
+    # costs a factor of two or three)
+    late = [c for c in many if core.obs_impl(mres[c["id"]])["outcome"][0] == "timeout" and not c.get("_k4") and c.get("_distinct", 0) < 20]
+    for c in late[:12]:
+        mres.update(core.run_impl([c], timeout_ms=10000))
     k4 = [r for kind_, prop_, r in core.known_findings() if kind_ == "known" and prop_ == "C03" and "id=K4" in r]
     k3 = [r for kind_, prop_, r in core.known_findings() if kind_ == "known" and prop_ == "C03" and "id=K3" in r]
     for c in many:
